@@ -221,11 +221,21 @@ def layout_noise(ctx):
     for n in ast.walk(f.node):
         if isinstance(n, ast.Call) and f.module.resolve(n.func, f.local_names()) == \
                 'pyins.kalman.compute_process_matrices' and len(n.args) >= 2:
-            x = n.args[1]
-            while isinstance(x, ast.BinOp) and isinstance(x.op, ast.MatMult):
-                x = x.left
-            if isinstance(x, ast.Name):
-                Gname = x.id
+            # any spelling of G diag(q^2) G^T: the local 2-D array with block stores that the
+            # noise argument is built from (its value is decided by ASSEMBLY)
+            e_ = n.args[1]
+            stored = {norm_text(s_.targets[0].value) for s_ in f.node.body
+                      if isinstance(s_, ast.Assign) and isinstance(s_.targets[0], ast.Subscript)
+                      and isinstance(s_.targets[0].slice, ast.Tuple)}
+            cands = {x.id for x in ast.walk(e_) if isinstance(x, ast.Name) and x.id in stored}
+            if not cands and isinstance(e_, ast.Name):
+                # Q = ... built in a statement of its own
+                for s_ in f.node.body:
+                    if isinstance(s_, ast.Assign) and norm_text(s_.targets[0]) == e_.id:
+                        cands = {x.id for x in ast.walk(s_.value)
+                                 if isinstance(x, ast.Name) and x.id in stored}
+            if len(cands) == 1:
+                Gname = next(iter(cands))
     ctx.need(Gname is not None, 'noise-input matrix of the discretisation call not identified')
     # noise slices = slices used as the column index of stores into that matrix
     noise_slices = set()
@@ -1308,3 +1318,283 @@ def res_collect(ctx, which=None):
                        why="feedback filter: result key 'trajectory' is `%s`"
                            % norm_text(kw.value)[:60])
     ctx.floor('RES-COLLECT', n_ob, 15 * len(which or (1, 2)), 'result roles')
+
+
+# ----------------------------------------------------------------------- ASSEMBLY
+def assembly(ctx):
+    """The joint model the filters run on, by VALUE: the two assembling helpers are executed by
+    the normalising evaluator with fully symbolic sub-matrices and small concrete dimensions
+    (INS 9; gyro model 3 states / 2 walk noises / 2 output noises; accelerometer model 2 / 1 / 3),
+    and every entry of the results is compared - including the zero background, which the
+    block-wise rules (LAYOUT-*) do not see."""
+    ctx.rule('ASSEMBLY', 'joint model by value: P0 = blockdiag(T P_pva T^T, P_gyro, P_accel) with '
+             'P_pva = diag(sigma^2) at the named components; F = [[Fii, Fig Hg, Fia Ha], [0, Fg, 0], '
+             '[0, 0, Fa]]; Q = G diag(q^2) G^T with G = [[Fig Jg, Fia Ja, 0, 0], [0, 0, Gg, 0], '
+             '[0, 0, 0, Ga]], q = (v_gyro, v_accel, q_gyro, q_accel); the step handed to the '
+             'discretisation is the helper\'s time_delta; all other entries zero')
+    from ..expr import SymEval, SArray, Rec, Obj, Opaque, Unsupported, RuntimeFailure
+    from ..nf import Alg, Rat
+    if 'assembly' in ctx.cache:
+        return
+    verdict = ctx.cache['assembly'] = {}
+    repo = ctx.repo
+    NI = 9
+    g_dim = dict(n_states=3, n_noises=2, n_output_noises=2)
+    a_dim = dict(n_states=2, n_noises=1, n_output_noises=3)
+    N = NI + g_dim['n_states'] + a_dim['n_states']
+
+    def mat(A, name, shape):
+        out = SArray(shape, {})
+        for i in out.indices():
+            out.entries[i] = A.sym('%s_%s' % (name, '_'.join(map(str, i))))
+        return out
+
+    def models(A):
+        emc = repo.klass('error_model.InsErrorModel')
+        em = Obj(emc)
+        em.attrs['n_states'] = NI
+        out = []
+        for tag, d in (('g', g_dim), ('a', a_dim)):
+            o = Obj(repo.klass('inertial_sensor.EstimationModel'))
+            o.attrs.update(d)
+            ns, nn, no = d['n_states'], d['n_noises'], d['n_output_noises']
+            o.attrs.update(P=mat(A, 'P' + tag, (ns, ns)), F=mat(A, 'F' + tag, (ns, ns)),
+                           G=mat(A, 'G' + tag, (ns, nn)), J=mat(A, 'J' + tag, (3, no)),
+                           v=mat(A, 'v' + tag, (no,)), q=mat(A, 'q' + tag, (nn,)),
+                           H=mat(A, 'Hc' + tag, (3, ns)))
+            out.append(o)
+        return em, out[0], out[1]
+
+    def compare(tag, f, got, want, A, what):
+        if not isinstance(got, SArray) or got.shape != want.shape:
+            ctx.ob('ASSEMBLY', False, None, what, f=f, node=f.node, key=tag,
+                   why='%s: result has shape %s, expected %s'
+                       % (what, getattr(got, 'shape', None), want.shape))
+            return
+        bad = [i for i in want.indices() if not A.eq(got.get(i), want.get(i))]
+        verdict[tag] = not bad
+        ctx.ob('ASSEMBLY', not bad, None, '%s (%d entries)' % (what, len(list(want.indices()))),
+               f=f, node=f.node, key=tag,
+               why='%s: %d entries differ, first %s = %s, expected %s'
+                   % (what, len(bad), list(bad[0]) if bad else '',
+                      A.key(got.get(bad[0]))[:90] if bad else '',
+                      A.key(want.get(bad[0]))[:90] if bad else ''))
+
+    # ---------------- initial covariance
+    f = repo.function('filters._initialize_covariance')
+    ctx.touch(f)
+    A = Alg()
+    em, gm, am = models(A)
+    T = mat(A, 'T', (NI, NI))
+
+    class H0:
+        def call(self, ev, q, node, args, kwargs, env):
+            if isinstance(node.func, ast.Attribute) and node.func.attr == 'transform_to_internal':
+                return T
+            return NotImplemented
+    ev = SymEval(repo, A, hooks=H0())
+    traj_cols = list(repo.const('util.TRAJECTORY_COLS'))
+    pva = Rec({c: A.sym(c) for c in traj_cols}, 'series')
+    sig = {'pos': A.sym('s_pos'), 'vel': A.sym('s_vel'), 'level': A.sym('s_level'),
+           'azimuth': A.sym('s_azimuth')}
+    args = []
+    for p_ in f.params:
+        if p_ == 'pva':
+            args.append(pva)
+        elif p_ == 'error_model':
+            args.append(em)
+        elif p_ == 'gyro_model':
+            args.append(gm)
+        elif p_ == 'accel_model':
+            args.append(am)
+        else:
+            k = [k for k in sig if p_.startswith(k)]
+            ctx.need(len(k) == 1, '_initialize_covariance: parameter %s not recognised' % p_)
+            args.append(sig[k[0]])
+    try:
+        P0 = ev.call_function(f, args)
+    except RuntimeFailure as e:
+        P0 = None
+        ctx.ob('ASSEMBLY', False, None, '_initialize_covariance evaluates', f=f, node=f.node,
+               key='p0-raises', why='_initialize_covariance raises: %s' % e)
+    except Unsupported as e:
+        raise AnalysisError('_initialize_covariance not analysable: %s' % e)
+    if P0 is not None:
+        emc = repo.klass('error_model.InsErrorModel')
+        comp = {}
+        for nm, r_ in (('DRN', 'pos'), ('DRE', 'pos'), ('DRD', 'pos'), ('DVN', 'vel'),
+                       ('DVE', 'vel'), ('DVD', 'vel'), ('DROLL', 'level'), ('DPITCH', 'level'),
+                       ('DHEADING', 'azimuth')):
+            comp[repo.const('error_model.InsErrorModel.' + nm)] = r_
+        ctx.need(sorted(comp) == list(range(9)), 'output component indices are not 0..8')
+        want = SArray((N, N), {}, A.const(0))
+        for i in range(NI):
+            for j in range(NI):
+                s_ = A.const(0)
+                for k in range(9):
+                    s_ = A.add(s_, A.mul(A.mul(T.get((i, k)), A.mul(sig[comp[k]], sig[comp[k]])),
+                                         T.get((j, k))))
+                want.entries[(i, j)] = s_
+        for o, off in ((gm, NI), (am, NI + g_dim['n_states'])):
+            Pm = o.attrs['P']
+            for i in Pm.indices():
+                want.entries[(off + i[0], off + i[1])] = Pm.get(i)
+        compare('p0', f, P0, want, A, 'initial covariance = blockdiag(T diag(sigma^2) T^T, '
+                                      'P_gyro, P_accel)')
+
+    # ---------------- continuous model handed to the discretisation
+    f = repo.function('filters._compute_error_propagation_matrices')
+    ctx.touch(f)
+    A = Alg()
+    em, gm, am = models(A)
+    ng, na = g_dim['n_states'], a_dim['n_states']
+    Fii, Fig, Fia = mat(A, 'Fii', (NI, NI)), mat(A, 'Fig', (NI, 3)), mat(A, 'Fia', (NI, 3))
+    Hg, Ha = mat(A, 'Hg', (3, ng)), mat(A, 'Ha', (3, na))
+    cap = {}
+
+    class H1:
+        def call(self, ev, q, node, args, kwargs, env):
+            if isinstance(node.func, ast.Attribute) and node.func.attr == 'system_matrices':
+                return (Fii, Fig, Fia)
+            if isinstance(node.func, ast.Attribute) and node.func.attr == 'output_matrix' and \
+                    isinstance(node.func.value, ast.Name):
+                o = env.get(node.func.value.id)
+                cap.setdefault('om', []).append((o, args[0] if args else None))
+                return Hg if o is gm else (Ha if o is am else NotImplemented)
+            if q == 'pyins.kalman.compute_process_matrices':
+                cap['call'] = (args, kwargs)
+                return (Opaque('Phi'), Opaque('Qd'))
+            return NotImplemented
+    ev = SymEval(repo, A, hooks=H1())
+    vals = {'pva': Rec({c: A.sym(c) for c in traj_cols}, 'series'),
+            'gyro': mat(A, 'w', (3,)), 'accel': mat(A, 'f', (3,)), 'time_delta': A.sym('time_delta'),
+            'error_model': em, 'gyro_model': gm, 'accel_model': am}
+    ctx.need(all(p_ in vals for p_ in f.params),
+             '_compute_error_propagation_matrices: parameters %s not recognised' % f.params)
+    try:
+        ev.call_function(f, [vals[p_] for p_ in f.params])
+    except RuntimeFailure as e:
+        ctx.ob('ASSEMBLY', False, None, '_compute_error_propagation_matrices evaluates', f=f,
+               node=getattr(ev, 'last_stmt', (None, f.node))[1], key='fq-raises',
+               why='_compute_error_propagation_matrices raises for a 9 + 3 + 2 state layout: %s' % e)
+        return
+    except Unsupported as e:
+        raise AnalysisError('_compute_error_propagation_matrices not analysable: %s' % e)
+    ctx.need('call' in cap, 'call of kalman.compute_process_matrices not found')
+    cargs, ckw = cap['call']
+    h = repo.function('kalman.compute_process_matrices')
+    b = dict(zip(h.params, cargs))
+    b.update(ckw)
+    ctx.need({'F', 'Q', 'dt'} <= set(b), 'arguments of compute_process_matrices')
+    # readings handed to the output matrices
+    for o, r_ in cap.get('om', []):
+        who = 'gyro' if o is gm else 'accel'
+        ok = r_ is vals[who]
+        ctx.ob('ASSEMBLY', ok, None, '%s model linearised at the %s readings' % (who, who), f=f,
+               node=f.node, key='om-' + who,
+               why='output_matrix of the %s model is evaluated with other readings' % who)
+    wantF = SArray((N, N), {}, A.const(0))
+
+    def put(dst, r0, c0, M):
+        for i in M.indices():
+            dst.entries[(r0 + i[0], c0 + i[1])] = M.get(i)
+    put(wantF, 0, 0, Fii)
+    put(wantF, 0, NI, ev.matmul(Fig, Hg))
+    put(wantF, 0, NI + ng, ev.matmul(Fia, Ha))
+    put(wantF, NI, NI, gm.attrs['F'])
+    put(wantF, NI + ng, NI + ng, am.attrs['F'])
+    compare('F', f, b['F'], wantF, A, 'continuous transition matrix F')
+    nog, noa = g_dim['n_output_noises'], a_dim['n_output_noises']
+    nng, nna = g_dim['n_noises'], a_dim['n_noises']
+    NN = nog + noa + nng + nna
+    G = SArray((N, NN), {}, A.const(0))
+    put(G, 0, 0, ev.matmul(Fig, gm.attrs['J']))
+    put(G, 0, nog, ev.matmul(Fia, am.attrs['J']))
+    put(G, NI, nog + noa, gm.attrs['G'])
+    put(G, NI + ng, nog + noa + nng, am.attrs['G'])
+    qv = [gm.attrs['v'].get((i,)) for i in range(nog)] + \
+         [am.attrs['v'].get((i,)) for i in range(noa)] + \
+         [gm.attrs['q'].get((i,)) for i in range(nng)] + \
+         [am.attrs['q'].get((i,)) for i in range(nna)]
+    wantQ = SArray((N, N), {})
+    for i in range(N):
+        for j in range(N):
+            s_ = A.const(0)
+            for k in range(NN):
+                gi, gj = G.get((i, k)), G.get((j, k))
+                if A.is_zero(gi) or A.is_zero(gj):
+                    continue
+                s_ = A.add(s_, A.mul(A.mul(gi, gj), A.mul(qv[k], qv[k])))
+            wantQ.entries[(i, j)] = s_
+    compare('Q', f, b['Q'], wantQ, A, 'continuous noise matrix Q = G diag(q^2) G^T')
+    verdict['dt'] = isinstance(b['dt'], Rat) and A.eq(b['dt'], A.sym('time_delta'))
+    ctx.ob('ASSEMBLY', verdict['dt'], None,
+           'the discretisation step is time_delta', f=f, node=f.node, key='dt',
+           why='compute_process_matrices receives the step `%s`, not the helper\'s time_delta'
+               % (A.key(b['dt'])[:60] if isinstance(b['dt'], Rat) else b['dt']))
+
+
+# ----------------------------------------------------------------------- INIT-STATE
+def init_state(ctx, which=None):
+    from . import sched
+    ctx.rule('INIT-STATE', 'filters start from the first state: the initial covariance is mapped '
+             'with the first row (feedforward: row 0 of the nominal trajectory; feedback: the '
+             'initial pva); the feedforward error state starts as a zero vector of the joint size')
+    n_ob = 0
+    for M in sched._models(ctx, which or (sched.FB, sched.FF)):
+        f = M.f
+        res = M.res
+        fb = M.kind == 'feedback'
+        calls = [(n, st) for st in M.pre for n in ast.walk(st)
+                 if isinstance(n, ast.Call) and
+                 (res(n.func) or '').endswith('filters._initialize_covariance')]
+        ctx.need(len(calls) == 1 and calls[0][0].args, '%s: call of _initialize_covariance'
+                 % f.name)
+        call, cst = calls[0]
+        a0 = call.args[0]
+        if fb:
+            ok = isinstance(a0, ast.Name) and a0.id == 'initial_pva' and 'initial_pva' in f.params
+            got = norm_text(a0)
+        else:
+            got = Closure(f).text(a0, cst, depth=2)
+            ok = got in ('trajectory_nominal.iloc[0]',
+                         'trajectory_nominal.loc[trajectory_nominal.index[0]]')
+        n_ob += 1
+        ctx.ob('INIT-STATE', ok, None, '%s: initial covariance mapped at the first state' % M.kind,
+               f=f, node=a0, key='%s-p0-state' % M.kind,
+               why='%s filter: the output sigmas are mapped to internal states at `%s`, not at '
+                   'the first state of the run' % (M.kind, got[:60]))
+        if fb:
+            continue
+        # role x: first target of kalman.correct
+        xs = {n.targets[0].elts[0].id for n in ast.walk(f.node)
+              if isinstance(n, ast.Assign) and isinstance(n.value, ast.Call) and
+              res(n.value.func) == 'pyins.kalman.correct' and
+              isinstance(n.targets[0], ast.Tuple) and n.targets[0].elts and
+              isinstance(n.targets[0].elts[0], ast.Name)}
+        ctx.need(len(xs) == 1, 'feedforward: error-state variable')
+        xn = next(iter(xs))
+        defs = [st for st in M.pre if isinstance(st, ast.Assign) and
+                isinstance(st.targets[0], ast.Name) and st.targets[0].id == xn]
+        ctx.need(len(defs) == 1, 'feedforward: initial value of the error state')
+        v = defs[0].value
+        okz = isinstance(v, ast.Call) and res(v.func) in ('numpy.zeros',) and len(v.args) == 1
+        size = norm_text(v.args[0]) if okz else ''
+        if okz and isinstance(v.args[0], ast.Name):
+            # n = len(P) bound before
+            nd = [st for st in M.pre if isinstance(st, ast.Assign) and
+                  isinstance(st.targets[0], ast.Name) and st.targets[0].id == v.args[0].id]
+            if nd:
+                size = norm_text(nd[-1].value)
+        pn = {n.targets[0].elts[1].id for n in ast.walk(f.node)
+              if isinstance(n, ast.Assign) and isinstance(n.value, ast.Call) and
+              res(n.value.func) == 'pyins.kalman.correct' and
+              isinstance(n.targets[0], ast.Tuple) and len(n.targets[0].elts) > 1 and
+              isinstance(n.targets[0].elts[1], ast.Name)}
+        oks = okz and any(size in ('len(%s)' % p_, '%s.shape[0]' % p_) for p_ in pn)
+        n_ob += 1
+        ctx.ob('INIT-STATE', okz and oks, None, 'feedforward: error state starts as zeros(len(P))',
+               f=f, node=defs[0], key='ff-x0',
+               why='feedforward filter: the error state starts as `%s`, not as a zero vector of '
+                   'the joint state size' % norm_text(v)[:60])
+    ctx.floor('INIT-STATE', n_ob, 1, 'initial-state sites')
